@@ -130,12 +130,27 @@ def load(config, columns):
 
 
 # -- the two round trips ----------------------------------------------------------------------
+def read_in_company(text, data_format):
+    """Read ``text`` while another reading of it, begun earlier, ends after the first row of this one: readings
+    that overlap in time are none of each other's business."""
+    company = rowio.delimited_rows(io.StringIO(text, newline=""), data_format)
+    next(company, None)
+    result = []
+    for row in rowio.delimited_rows(io.StringIO(text, newline=""), data_format):
+        result.append(row)
+        if company is not None:
+            for _ in company:
+                pass
+            company = None
+    return result
+
+
 def roundtrip_rowio(cid, table):
     target = io.StringIO(newline="")
     writer = rowio.DelimitedRowWriter(target, cid.data_format)
     writer.write_rows(table)
     text = target.getvalue()
-    return text, list(rowio.delimited_rows(io.StringIO(text, newline=""), cid.data_format))
+    return text, read_in_company(text, cid.data_format)
 
 
 def roundtrip_validio(cid, table):
@@ -438,8 +453,8 @@ def _enumeration_shard(args):
             # cells longer than the buffers and limits of the layers below (csv's default field size limit is 131072)
             for size in LONG_CELL_SIZES:
                 atom = atoms_of(config)[(number // 320 + size) % len(atoms_of(config))]
-                check_case(local, {"config": config, "table": [["k", (atom * size)[:size] + "."], ["x", "y"]],
-                                   "columns": 2})
+                rows = [["k", (atom * size)[:size] + "."], ["x", "y"]]
+                check_case(local, {"config": config, "table": rows if size % 2 == 0 else rows[::-1], "columns": 2})
         if number % 4 == 0:
             with_header = dict(config, header=1 + number // 4 % 2)
             for table in systematic_tables(config)[7:]:
@@ -451,6 +466,71 @@ def _enumeration_shard(args):
         local.samples = local.samples[:1] if number % 499 == 0 else []
         sub.merge(local)
     return sub
+
+
+# -- (b2) overlapping readings, each scenario in a process that has read nothing before ------------
+def _overlap_task(args):
+    """Two readings that overlap in time, the first thing this (freshly forked) process does with cutplace: a short
+    one begins, the one with a long cell in a later row begins, the short one ends, the long one goes on."""
+    from vlib.runner import Sub
+
+    number, size, order = args
+    sub = Sub("overlap")
+    config = None
+    for config_number, candidate in enumerate(all_configs()):
+        if config_number >= number:
+            try:
+                load(candidate, 2)
+                config = candidate
+                break
+            except Exception:
+                continue
+    if config is None:
+        return sub
+    atom = atoms_of(config)[size % len(atoms_of(config))]
+    long_table = [["x", "y"], ["k", (atom * size)[:size] + "."], ["z", ""]]
+    check_overlap(sub, {"config": config, "table": long_table, "columns": 2, "overlap": order})
+    return sub
+
+
+def check_overlap(sub, case):
+    config, long_table, order = case["config"], case["table"], case["overlap"]
+    size = max(len(cell) for row in long_table for cell in row)
+    cid = load(config, 2)
+    short_table = [["a", "b"], ["c", "d"]]
+    texts = []
+    for table in (long_table, short_table):
+        target = io.StringIO(newline="")
+        writer = rowio.DelimitedRowWriter(target, cid.data_format)
+        writer.write_rows(table)
+        texts.append(target.getvalue())
+    sub.evaluations += 1
+    sub.case((sorted(config.items()), size, order), True, ["overlap:" + order, "overlap:size:%d" % size])
+    try:
+        long_reading = rowio.delimited_rows(io.StringIO(texts[0], newline=""), cid.data_format)
+        short_reading = rowio.delimited_rows(io.StringIO(texts[1], newline=""), cid.data_format)
+        back = []
+        if order == "short-first":
+            next(short_reading)
+            back.append(next(long_reading))
+            list(short_reading)
+        elif order == "long-first":
+            back.append(next(long_reading))
+            next(short_reading)
+            list(short_reading)
+        else:  # the short one is abandoned, never finished
+            next(short_reading)
+            back.append(next(long_reading))
+            short_reading.close()
+        back.extend(long_reading)
+    except Exception as error:
+        sub.fail("C12|overlap|%s|%s" % (order, type(error).__name__), case,
+                 "a reading of %r overlapping with a short one (%s) raised %s: %s" % (
+                     _brief(long_table), order, type(error).__name__, str(error)[:300]))
+        return
+    if back != long_table:
+        sub.fail("C12|overlap|%s|differs" % order, case, "a reading of %r overlapping with a short one (%s) returned %r" % (
+            _brief(long_table), order, _brief(back)))
 
 
 # -- (c) Hypothesis ------------------------------------------------------------------------------
@@ -499,6 +579,8 @@ def table_cases(draw):
 
 
 def run(ctx):
+    ctx.par(_overlap_task, [(number, size, order) for number in ((0, 960) if ctx.quick else (0, 320, 960, 2240, 4480))
+                            for size in (131072, 262143) for order in ("short-first", "long-first", "short-abandoned")])
     shards = ctx.workers * 2
     derived = ctx.n(3, 100)
     ctx.par(_enumeration_shard, [(i, shards, ctx.seed, derived) for i in range(shards)])
@@ -506,4 +588,7 @@ def run(ctx):
 
 
 def replay(sub, case):
-    check_case(sub, case)
+    if "overlap" in case:
+        check_overlap(sub, case)
+    else:
+        check_case(sub, case)
